@@ -31,14 +31,24 @@ Proof.
   apply list_eqb_sym. intros x y. unfold pair_eqb. rewrite bytes_eqb_sym, aval_eqb_sym. reflexivity.
 Qed.
 
-Lemma dbl_eqb_trans a b c : dbl_eqb a b = true -> dbl_eqb b c = true -> dbl_eqb a c = true.
+Lemma dbl_ieee_eqb_trans a b c : dbl_ieee_eqb a b = true -> dbl_ieee_eqb b c = true -> dbl_ieee_eqb a c = true.
 Proof.
-  unfold dbl_eqb. destruct (dbl_nan a), (dbl_nan b), (dbl_nan c); cbn; try discriminate.
+  unfold dbl_ieee_eqb. destruct (dbl_nan a), (dbl_nan b), (dbl_nan c); cbn; try discriminate.
   destruct (a =? b) eqn:E1, (b =? c) eqn:E2, (dbl_zero a) eqn:Za, (dbl_zero b) eqn:Zb, (dbl_zero c) eqn:Zc; cbn; try discriminate;
     intros _ _; try reflexivity; try (apply Z.eqb_eq in E1; subst); try (apply Z.eqb_eq in E2; subst);
     try rewrite Z.eqb_refl; try reflexivity; try congruence.
   all: try (rewrite Za in Zb; discriminate); try (rewrite Zb in Zc; discriminate); try (rewrite Zc in Zb; discriminate); try (rewrite Zb in Za; discriminate).
   all: apply orb_true_r.
+Qed.
+Lemma dbl_ieee_no_nan a b : dbl_ieee_eqb a b = true -> dbl_nan a = false /\ dbl_nan b = false.
+Proof. unfold dbl_ieee_eqb. destruct (dbl_nan a), (dbl_nan b); cbn; try discriminate. auto. Qed.
+Lemma dbl_eqb_trans a b c : dbl_eqb a b = true -> dbl_eqb b c = true -> dbl_eqb a c = true.
+Proof.
+  unfold dbl_eqb. rewrite !orb_true_iff, !andb_true_iff. intros [H1|[H1 H1']] [H2|[H2 H2']].
+  - left. eapply dbl_ieee_eqb_trans; eauto.
+  - apply dbl_ieee_no_nan in H1. destruct H1. congruence.
+  - apply dbl_ieee_no_nan in H2. destruct H2. congruence.
+  - right. auto.
 Qed.
 Lemma scal_eqb_trans t x y z : scal_eqb t x y = true -> scal_eqb t y z = true -> scal_eqb t x z = true.
 Proof.
@@ -81,25 +91,21 @@ Proof.
   unfold aval_eqb, scal_eqb. rewrite sty_eqb_refl, Z.eqb_refl. reflexivity.
 Qed.
 
-(* maps without NaN equal themselves *)
-Lemma dbl_eqb_refl a : dbl_nan a = false -> dbl_eqb a a = true.
-Proof. unfold dbl_eqb. intros ->. rewrite Z.eqb_refl. reflexivity. Qed.
-Lemma scal_eqb_refl t x : scal_nan t x = false -> scal_eqb t x x = true.
+(* every map equals itself *)
+Lemma scal_eqb_refl t x : scal_eqb t x x = true.
 Proof.
-  destruct x as [a|a]; cbn; [|intros _; apply bytes_eqb_refl].
-  destruct t; cbn; try (intros _; apply Z.eqb_refl). apply dbl_eqb_refl.
+  destruct x as [a|a]; cbn; [|apply bytes_eqb_refl]. destruct t; cbn; try apply Z.eqb_refl. apply dbl_eqb_refl.
 Qed.
-Lemma aval_eqb_refl x : aval_nan x = false -> aval_eqb x x = true.
+Lemma aval_eqb_refl x : aval_eqb x x = true.
 Proof.
-  destruct x as [t a|t l]; cbn; intros H; rewrite sty_eqb_refl; cbn.
-  - apply scal_eqb_refl. assumption.
-  - induction l as [|x l IH]; cbn in *; [reflexivity|]. apply orb_false_iff in H. destruct H as [H1 H2].
-    rewrite scal_eqb_refl by assumption. auto.
+  destruct x as [t a|t l]; cbn; rewrite sty_eqb_refl; cbn.
+  - apply scal_eqb_refl.
+  - induction l as [|x l IH]; cbn; [reflexivity|]. rewrite scal_eqb_refl. exact IH.
 Qed.
-Lemma attrs_eqb_refl a : attrs_nan a = false -> attrs_eqb a a = true.
+Lemma attrs_eqb_refl a : attrs_eqb a a = true.
 Proof.
-  unfold attrs_nan, attrs_eqb. induction a as [|[k v] a IH]; cbn; [reflexivity|].
-  rewrite orb_false_iff. intros [H1 H2]. unfold pair_eqb. cbn [fst snd]. rewrite bytes_eqb_refl, aval_eqb_refl by assumption. auto.
+  unfold attrs_eqb. induction a as [|[k v] a IH]; cbn; [reflexivity|].
+  unfold pair_eqb. cbn [fst snd]. rewrite bytes_eqb_refl, aval_eqb_refl. exact IH.
 Qed.
 
 (* ------------------------------------------------------------------ lookups *)
@@ -196,14 +202,6 @@ Proof.
     + apply tadd_tinv. apply ensure_overflow_tinv; assumption.
     + apply tinv_app_room; assumption.
 Qed.
-Lemma record_ref_tinv L k d t t' : tinv L t -> record_ref L k d t = Some t' -> tinv L t'.
-Proof.
-  intros H. unfold record_ref. destruct (tfind k t).
-  - intros E. inversion E. apply tinv_tset. assumption.
-  - destruct (is_overflow L t) eqn:Eo.
-    + intros E. inversion E. apply tadd_tinv. apply ensure_overflow_tinv; assumption.
-    + destruct (self_eq k); [|discriminate]. intros E. inversion E. apply tinv_app_room; assumption.
-Qed.
 Lemma tput_tinv L k v t : tinv L t -> tinv L (tput L k v t).
 Proof.
   intros H. unfold tput. destruct (tfind k t).
@@ -221,20 +219,17 @@ Proof. unfold is_overflow. lia. Qed.
 Lemma ensure_overflow_length t : (length t <= length (ensure_overflow t))%nat.
 Proof. unfold ensure_overflow. destruct (tfind overflow_attrs t); [lia|]. rewrite app_length. lia. Qed.
 
-Lemma merge_in_tinv L t e t' : tinv L t -> merge_in L t e = Some t' -> tinv L t'.
+Lemma merge_in_tinv L t e : tinv L t -> tinv L (merge_in L t e).
 Proof.
   intros H. destruct e as [k d]. unfold merge_in. destruct (tfind k t).
-  - intros E. inversion E. apply tput_tinv. assumption.
+  - apply tput_tinv. assumption.
   - destruct (is_overflow L t) eqn:Eo.
-    + destruct (tfind overflow_attrs (ensure_overflow t)); [|discriminate]. intros E. inversion E.
-      apply tput_tinv. apply ensure_overflow_tinv; assumption.
-    + destruct (self_eq k); [|discriminate]. intros E. inversion E. apply tput_tinv. apply tinv_app_room; assumption.
+    + apply tput_tinv. apply ensure_overflow_tinv; assumption.
+    + apply tput_tinv. apply tinv_app_room; assumption.
 Qed.
-Lemma merge_all_tinv L es t t' : tinv L t -> merge_all L t es = Some t' -> tinv L t'.
+Lemma merge_all_tinv L es t : tinv L t -> tinv L (merge_all L t es).
 Proof.
-  revert t. induction es as [|e es IH]; intros t H; cbn.
-  - intros E. inversion E. subst. assumption.
-  - destruct (merge_in L t e) eqn:Em; [|discriminate]. apply IH. eapply merge_in_tinv; eauto.
+  unfold merge_all. revert t. induction es as [|e es IH]; intros t H; cbn; [assumption|]. apply IH. apply merge_in_tinv. assumption.
 Qed.
 
 (* ------------------------------------------------------------------ conservation *)
@@ -251,15 +246,6 @@ Proof.
     + rewrite tadd_total by apply has_ovf_ensure. rewrite ensure_overflow_total. reflexivity.
     + rewrite total_app. reflexivity.
 Qed.
-Theorem record_ref_total L k d t t' : record_ref L k d t = Some t' -> total t' = total t + d.
-Proof.
-  unfold record_ref. destruct (tfind k t) eqn:E.
-  - intros H. inversion H. rewrite (total_tset k _ t z E). lia.
-  - destruct (is_overflow L t).
-    + intros H. inversion H. rewrite tadd_total by apply has_ovf_ensure. rewrite ensure_overflow_total. reflexivity.
-    + destruct (self_eq k); [|discriminate]. intros H. inversion H. rewrite total_app. reflexivity.
-Qed.
-
 (* what Set(k, v) replaces *)
 Definition replaced (L : nat) (k : attrs) (t : table) : Z :=
   match tfind k t with
@@ -275,12 +261,13 @@ Proof.
     + rewrite total_app. cbn. lia.
 Qed.
 
-Theorem merge_in_total L t k d t' : merge_in L t (k, d) = Some t' -> total t' = total t + d.
+Theorem merge_in_total L t k d : total (merge_in L t (k, d)) = total t + d.
 Proof.
   unfold merge_in. destruct (tfind k t) eqn:E.
-  - intros H. inversion H. rewrite tput_total. unfold replaced. rewrite E. lia.
+  - rewrite tput_total. unfold replaced. rewrite E. lia.
   - destruct (is_overflow L t) eqn:Eo.
-    + destruct (tfind overflow_attrs (ensure_overflow t)) eqn:E2; [|discriminate]. intros H. inversion H.
+    + pose proof (has_ovf_ensure t) as Hov. unfold has_ovf in Hov.
+      destruct (tfind overflow_attrs (ensure_overflow t)) as [v|] eqn:E2; [|discriminate].
       rewrite tput_total, ensure_overflow_total. unfold replaced.
       rewrite (is_overflow_mono L t (ensure_overflow t) (ensure_overflow_length t) Eo), E2.
       destruct (tfind k (ensure_overflow t)) eqn:E3; [|lia].
@@ -288,32 +275,22 @@ Proof.
       unfold ensure_overflow in E2, E3. destruct (tfind overflow_attrs t) eqn:E4; [congruence|].
       rewrite tfind_app, E in E3. rewrite tfind_app, E4 in E2. cbn [fst snd] in *. rewrite overflow_self in E2.
       destruct (attrs_eqb overflow_attrs k); inversion E2; inversion E3; lia.
-    + destruct (self_eq k) eqn:Es; [|discriminate]. intros H. inversion H. rewrite tput_total, total_app. unfold replaced.
-      rewrite tfind_app, E. cbn [fst snd]. unfold self_eq in Es. rewrite Es. lia.
+    + rewrite tput_total, total_app. unfold replaced. rewrite tfind_app, E. cbn [fst snd]. rewrite attrs_eqb_refl. lia.
 Qed.
 Lemma total_cons e t : total (e :: t) = snd e + total t.
 Proof. reflexivity. Qed.
 Lemma total_nil : total [] = 0.
 Proof. reflexivity. Qed.
-Theorem merge_all_total L es t t' : merge_all L t es = Some t' -> total t' = total t + total es.
+Theorem merge_all_total L es t : total (merge_all L t es) = total t + total es.
 Proof.
-  revert t. induction es as [|[k d] es IH]; intros t; cbn [merge_all].
-  - intros H. inversion H. rewrite total_nil. lia.
-  - destruct (merge_in L t (k, d)) eqn:Em; [|discriminate]. intros H. rewrite (IH _ H), (merge_in_total _ _ _ _ _ Em), total_cons.
-    cbn [snd]. lia.
+  unfold merge_all. revert t. induction es as [|[k d] es IH]; intros t; cbn [fold_left].
+  - rewrite total_nil. lia.
+  - rewrite IH, merge_in_total, total_cons. cbn [snd]. lia.
 Qed.
 Lemma total_app2 a b : total (a ++ b) = total a + total b.
 Proof. induction a as [|e a IH]; [rewrite total_nil; reflexivity|]. cbn [app]. rewrite !total_cons, IH. lia. Qed.
 Lemma total_concat (l : list table) : total (concat l) = fold_right (fun t s => total t + s) 0 l.
 Proof. induction l as [|t l IH]; cbn [concat fold_right]; [reflexivity|]. rewrite total_app2, IH. reflexivity. Qed.
-
-(* merges never crash on keys that equal themselves *)
-Lemma merge_in_no_crash L t k d : self_eq k = true -> merge_in L t (k, d) <> None.
-Proof.
-  intros Hs. unfold merge_in. destruct (tfind k t); [discriminate|]. destruct (is_overflow L t).
-  - pose proof (has_ovf_ensure t) as H. unfold has_ovf in H. destruct (tfind overflow_attrs (ensure_overflow t)); [discriminate|discriminate].
-  - rewrite Hs. discriminate.
-Qed.
 
 (* ------------------------------------------------------------------ walk orders *)
 Lemma scal_same_eq x y : scal_same x y = true -> x = y.
@@ -418,14 +395,6 @@ Proof.
     + apply kdistinct_tadd, kdistinct_ensure. assumption.
     + apply kdistinct_app; assumption.
 Qed.
-Lemma record_ref_kdistinct L k d t t' : kdistinct t -> record_ref L k d t = Some t' -> kdistinct t'.
-Proof.
-  intros H. unfold record_ref. destruct (tfind k t) eqn:E.
-  - intros X. inversion X. apply kdistinct_tset. assumption.
-  - destruct (is_overflow L t).
-    + intros X. inversion X. apply kdistinct_tadd, kdistinct_ensure. assumption.
-    + destruct (self_eq k); [|discriminate]. intros X. inversion X. apply kdistinct_app; assumption.
-Qed.
 Lemma tput_kdistinct L k v t : kdistinct t -> kdistinct (tput L k v t).
 Proof.
   intros H. unfold tput. destruct (tfind k t) eqn:E.
@@ -434,20 +403,17 @@ Proof.
     + destruct (tfind overflow_attrs t) eqn:Eo; [apply kdistinct_tset; assumption|]. apply kdistinct_app; assumption.
     + apply kdistinct_app; assumption.
 Qed.
-Lemma merge_in_kdistinct L t e t' : kdistinct t -> merge_in L t e = Some t' -> kdistinct t'.
+Lemma merge_in_kdistinct L t e : kdistinct t -> kdistinct (merge_in L t e).
 Proof.
   intros H. destruct e as [k d]. unfold merge_in. destruct (tfind k t) eqn:E.
-  - intros X. inversion X. apply tput_kdistinct. assumption.
+  - apply tput_kdistinct. assumption.
   - destruct (is_overflow L t).
-    + destruct (tfind overflow_attrs (ensure_overflow t)); [|discriminate]. intros X. inversion X.
-      apply tput_kdistinct, kdistinct_ensure. assumption.
-    + destruct (self_eq k); [|discriminate]. intros X. inversion X. apply tput_kdistinct. apply kdistinct_app; assumption.
+    + apply tput_kdistinct, kdistinct_ensure. assumption.
+    + apply tput_kdistinct. apply kdistinct_app; assumption.
 Qed.
-Lemma merge_all_kdistinct L es t t' : kdistinct t -> merge_all L t es = Some t' -> kdistinct t'.
+Lemma merge_all_kdistinct L es t : kdistinct t -> kdistinct (merge_all L t es).
 Proof.
-  revert t. induction es as [|e es IH]; intros t H; cbn.
-  - intros X. inversion X. subst. assumption.
-  - destruct (merge_in L t e) eqn:Em; [|discriminate]. apply IH. eapply merge_in_kdistinct; eauto.
+  unfold merge_all. revert t. induction es as [|e es IH]; intros t H; cbn; [assumption|]. apply IH. apply merge_in_kdistinct. assumption.
 Qed.
 
 (* ------------------------------------------------------------------ same series iff equal maps, at the table *)
